@@ -294,3 +294,48 @@ pub fn dally(n: u32) {
         relax();
     }
 }
+
+/// a thread actor that issues `Coroutine::cancel()` calls at scripted moments:
+/// entry = (number of controller yield points before the cancel, target, flag set before it)
+pub fn spawn_canceller(mut list: Vec<(u32, may::coroutine::Coroutine, Arc<AtomicBool>)>) -> Actor {
+    spawn_actor(Ctx::Thread, "ctl", move || {
+        list.sort_by_key(|c| c.0);
+        let mut k = 0;
+        for (at, co, flag) in list {
+            while k < at {
+                engine::yield_point();
+                k += 1;
+            }
+            flag.store(true, Ordering::Relaxed);
+            unsafe { co.cancel() };
+        }
+    })
+}
+
+/// join a coroutine actor and insist on: normal end, or Cancel if it was a cancel target
+pub fn expect_end(a: &mut Actor, cancel_target: bool) {
+    if let Some(h) = a.co.take() {
+        match h.join() {
+            Ok(()) => {}
+            Err(e) => {
+                let is_cancel = matches!(e.downcast_ref::<generator::Error>(), Some(generator::Error::Cancel));
+                if !(is_cancel && cancel_target) {
+                    engine::violation(&format!(
+                        "{} ended with an unexpected panic: {}",
+                        a.name,
+                        crate::panic_msg(&e)
+                    ));
+                }
+            }
+        }
+    }
+}
+
+/// context-aware virtual sleep
+pub fn nap(ns: u64) {
+    if may::coroutine::is_coroutine() {
+        may::coroutine::sleep(std::time::Duration::from_nanos(ns));
+    } else {
+        engine::sleep(ns);
+    }
+}
